@@ -38,6 +38,19 @@ def _instances(model):
         yield 'functional', name, c09b.H9, b
 
 
+def _poisoned(r):
+    def walk(x):
+        for v in x.vars():
+            if isinstance(v, str) and v.startswith(('uninit', 'garbage')):
+                return True
+            if isinstance(v, tuple):
+                for z in v[1:]:
+                    if hasattr(z, 'vars') and walk(z):
+                        return True
+        return False
+    return walk(r)
+
+
 def evaluate(model, Hcls, build):
     H = Hcls()
     I = SMInterp(model, {}, H)
@@ -83,7 +96,14 @@ def evaluate(model, Hcls, build):
                      % (len(oe), len(y1e)))
     else:
         for k, (a, b) in enumerate(zip(oe, y1e)):
-            if not PA.equal_exact(a, b, WIT):
+            if _poisoned(a) or _poisoned(b):
+                probs.append('entry %d of the %s result depends on the '
+                             'previous contents of `out` / uninitialised '
+                             'memory: %s' % (k, 'in-place' if _poisoned(a)
+                                             else 'out-of-place',
+                                             _s(a if _poisoned(a) else b)))
+                break
+            if not PA.same(a, b, WIT):
                 probs.append('entry %d of the in-place result is %s, the '
                              'out-of-place value is %s' % (k, _s(a), _s(b)))
                 break
